@@ -69,3 +69,29 @@ contract(SH + "shaving_consistency_algorithm", types=ENGINE_T, props=["C10", "C1
         ("C09.records", f"forall(l, 0, {T0}, {U_}[l, 0] == {U0}[l, 0] and {U_}[l, 1] == {U0}[l, 1])"),
     ],
     tags={"C10": ["C10"], "C08": ["C08", "C10"], "C07": ["C07"], "C01": ["C01"], "C02": ["C02", "C10", "C03"], "C17": ["C17"], "C09": ["C09"], "C04": ["C04"], "wf": ["C16", "C19"]}, arities=[])
+
+
+# ------------------------------------------------------------------ acceptance (C01 composition through shaving, full-mask constraints)
+SBB = REG.contracts[SH + "shave_bound"]
+A_TOP, J_TOP = ACC_A(SS), ACC_J(SS)
+contract(SH + "shave_bound", variant="acc", types=SB_T, result="bool", props=["C01"],
+    requires=list(SBB.requires) + [ALLFULL, ("C01.A0", A_TOP), ("C01.J0", J_TOP)],
+    ghost_results=SBB.extra["ghost_results"], ghost=SBB.ghost, call_ghosts=SBB.extra["call_ghosts"], defs=[V_DEF], modifies=SBB.modifies,
+    ensures=list(SBB.ensures) + [
+        # the probe's own acceptance is irrelevant: only its verdict is used; what matters is the restored / shaved level
+        ("C01.restored", f"implies(not result, {A_TOP})"),
+        ("C01.shaved", f"implies(result, {ACC_K(SS, 'triggered_propagators', '-1')})"),
+        ("C01.J", J_TOP)],
+    tags={"C01": ["C01"], "C10": ["C01"], "C17": ["C01"], "wf": ["C16"]}, arities=[], timeout_ms=200000)
+
+SHB = REG.contracts[SH + "shaving_consistency_algorithm"]
+lo = dict(SHB.loops[1])
+lo["invariant"] = [c for c in lo["invariant"] if "preserve" not in c[0]] + [("C01.state", f"ite(has_shaved, {ACC_K(SS, 'triggered_propagators', '-1')}, {A_TOP})"), ("C01.J", J_TOP)]
+for _k in ("decreases", "hints", "step_hints", "step_ensures"):
+    lo.pop(_k, None)
+contract(SH + "shaving_consistency_algorithm", variant="acc", types=ENGINE_T, props=["C01"],
+    requires=list(SHB.requires) + ACC_REQ, ghost=SHB.ghost, defs=[V_DEF],
+    calls={"bound_consistency_algorithm": BCQ + "#acc", "shave_bound": SH + "shave_bound#acc"},
+    call_ghosts=SHB.extra["call_ghosts"], modifies=SHB.modifies, loops={1: lo},
+    ensures=[c for c in SHB.ensures if c[0] != "C02.preserve"] + ACC_ENS,
+    tags={"C01": ["C01"], "C10": ["C01"], "C08": ["C01"], "C07": ["C01"], "C17": ["C01"], "C09": ["C01"], "wf": ["C16"]}, arities=[], timeout_ms=200000)
